@@ -11,7 +11,7 @@ LEAN_MODULES = ["Exetera.Props.C17"]
 THEOREMS = []  # filled from checks/obligations/C17.json
 EXHAUSTIVE = {"quick": True, "thorough": True}
 MODES = {"quick": ["jit"], "thorough": ["jit", "nojit", "bounds"], "search": ["jit", "nojit"]}
-CASE_TIMEOUT = 30
+CASE_TIMEOUT = 60
 RULE = ("exhaustive: every old key column over 3 keys with 0-3 versions per key and at most n rows (quick n=3, thorough n=5) in "
         "every physical order x every snapshot over the 3 keys (unique keys, every subset in every order) x payload variants (quick: one per pair, rotating) "
         "(one numeric and one indexed-string column; per key the snapshot row equals the latest old version / differs in the "
@@ -31,16 +31,23 @@ TRUSTED = ["Lean 4.33 kernel", "axioms: propext, Classical.choice, Quot.sound on
            "checks/harness/c17.py generators and comparison", "Lean model Exetera/Model/Journal.lean mirrors operations.py / journal.py by hand",
            "h5py/HDF5 (BytesIO) stores what is written"]
 TECHNIQUE = "Lean 4 theorems about an executable model + differential execution of model and real code"
-LEVEL_TEXT = ("Proved in Lean for all inputs: on sorted keys the index generator returns one slot per distinct key of old+new in "
-              "ascending order (last old row or -1, snapshot row or -1) without any out-of-bounds access; to_keep is true exactly "
-              "for new keys and for snapshot rows differing from the last old version in some compared column; the numeric and "
-              "indexed merge kernels write exactly the rows of the specification's plan (all versions of a key, then the kept "
-              "snapshot row), every output column has length len(old)+count(to_keep) and all columns follow the same plan; "
-              "journal_table's model (with the two stable sorts) equals the per-key specification on tables in any physical order. "
-              "The model is tied to exetera by differential execution (exhaustive small scope + seeded random).")
+LEVEL_TEXT = ("Proved in Lean for all inputs (12 theorems, Props/C17.lean): the index generator is memory-safe and terminates on every "
+              "pair of key columns, and on ascending old keys / strictly ascending snapshot keys returns one slot per distinct key of "
+              "old+new in ascending order (last old row or -1, snapshot row or -1); after the compare loop over any non-empty list of "
+              "numeric and indexed fields to_keep is true exactly for new keys and for snapshot rows differing from the last old "
+              "version in some compared field; the numeric and the indexed merge kernels (with the count kernel sizing the value "
+              "buffer) write exactly the rows of the specification's plan - all versions of a key in order, then the kept snapshot "
+              "row - with no out-of-bounds access; every result field has len(old)+count(to_keep) rows and all fields follow the "
+              "same plan (rows aligned); keys absent from the snapshot keep their history; and journal_table's model, including its "
+              "two stable sorts, equals the per-key specification for tables in ANY physical order with unique snapshot keys. "
+              "The model is tied to exetera by differential execution (exhaustive small scope + seeded random, JIT / interpreted / "
+              "bounds-checked).")
 LEVEL_NOTE = ("'original order' of a key's old versions is read as (j_valid_from, physical row) order, which is what journal_table "
-              "sorts by; for tables whose versions are physically in j_valid_from order (every table produced by journalling) this is "
-              "the literal physical order. The result frame holds only the compared fields (no key / j_valid_* columns).")
+              "sorts by (theorem history_order); for tables whose versions are physically in j_valid_from order (every table produced "
+              "by journalling) this is the literal physical order. The result frame holds only the compared fields (no key / "
+              "j_valid_* columns), which the property does not demand. Values are Int in the model: float NaN cells are covered by the "
+              "correspondence only (NC17a: before the fix NaN != NaN made an unchanged record reappear). np.argsort(kind='stable'), "
+              "fancy indexing and the indexed-string layout are modelled externals.")
 EXPLANATION = ""
 
 STRS = ["", "a", "b", "ab", "ba", "abc", "é", "aé", "zz z"]
@@ -392,7 +399,45 @@ def decode_str(col):
     return [v[a:b] for a, b in zip(i, i[1:])]
 
 
+_CONFIRMED = {}
+
+
+def _confirm(case, io):
+    """A worker that is still compiling the numba kernels on a loaded machine can exceed the pool's stall limit and report
+    'hang' for a case that does not spin (every loop of journal_table is bounded). Such a result is re-run once, in this
+    process, with a generous limit; a real spin stays a 'hang'."""
+    if io.get("err") != "hang":
+        return io
+    import json
+    import signal
+    import sys
+    import os
+    key = json.dumps({k: v for k, v in case.items() if not k.startswith("_")}, sort_keys=True)
+    if key not in _CONFIRMED:
+        repo = os.environ.get("EXETERA_REPO", "/repo")
+        if repo not in sys.path:
+            sys.path.insert(0, repo)
+
+        def _alarm(signum, frame):
+            raise TimeoutError()
+        old = signal.signal(signal.SIGALRM, _alarm)
+        signal.setitimer(signal.ITIMER_REAL, 600)
+        try:
+            _CONFIRMED[key] = impl(case)
+        except TimeoutError:
+            _CONFIRMED[key] = io
+        except KeyError as e:
+            _CONFIRMED[key] = {"err": "key_error", "msg": str(e)}
+        except Exception as e:  # noqa
+            _CONFIRMED[key] = {"err": "other:" + type(e).__name__, "msg": str(e)[:200]}
+        finally:
+            signal.setitimer(signal.ITIMER_REAL, 0)
+            signal.signal(signal.SIGALRM, old)
+    return _CONFIRMED[key]
+
+
 def check_spec(case, io, mode):
+    io = _confirm(case, io)
     if not in_scope(case) or not case["cols"]:
         return None
     if "err" in io:
@@ -426,6 +471,7 @@ def check_spec(case, io, mode):
 
 
 def compare(case, io, mo, mode):
+    io = _confirm(case, io)
     if case.get("drop_old") or case.get("drop_new"):
         return None if io.get("err") == "key_error" else f"expected KeyError, got {io}"
     if "err" in io or "err" in mo:
